@@ -73,9 +73,28 @@ struct LineBuf : std::streambuf
 bool g_stall_after_bestmove = false;  // guarded by S.m
 bool g_stalled = false, g_stall_release = false;
 
+// C20 through the real UCI front end: the time budget the search of the current `go` works with (hook argument b at the
+// iteration boundaries and before bestmove). Written by the one search thread, read by the GUI thread after the answer.
+std::atomic<long long> g_bmax{-1}, g_bmin{-1};
+std::atomic<long> g_bobs{0};
+
 void hook(verif::Point p, const verif::Ctx& c)
 {
     S.events[p]++;
+    if (p == verif::ITER_BEGIN || p == verif::ITER_END || p == verif::BEFORE_BESTMOVE)
+    {
+        long long b = c.b;
+        if (g_bobs.fetch_add(1) == 0)
+        {
+            g_bmax = b;
+            g_bmin = b;
+        }
+        else
+        {
+            if (b > g_bmax.load()) g_bmax = b;
+            if (b < g_bmin.load()) g_bmin = b;
+        }
+    }
     long k = -1;
     if (p == verif::NODE || p == verif::QNODE)
     {
@@ -501,6 +520,86 @@ bool run_infinite_selfending(const std::string& fen, bool stop_first)
     return alive;
 }
 
+// (D) C20 at the UCI boundary: a clock-governed `go` - written in various argument orders, with and without searchmoves, after
+// earlier searches with other limits in the same session - must work with a budget within 0..70% of the MOVER's clock.
+bool run_budget(const std::string& fen, bool white_to_move, const std::string& pre, const std::string& pre_name, const std::string& go_form, const std::string& form_name,
+                int T, int other, int inc, const std::string& sm)
+{
+    Seen seen;
+    auto subst = [&](std::string t) {
+        auto rep = [&](const std::string& a, const std::string& b) {
+            for (size_t i = t.find(a); i != std::string::npos; i = t.find(a, i + b.size())) t.replace(i, a.size(), b);
+        };
+        rep("@W", std::to_string(white_to_move ? T : other));
+        rep("@B", std::to_string(white_to_move ? other : T));
+        rep("@I", std::to_string(inc));
+        rep("@SM", sm);
+        return t;
+    };
+    std::string go = subst(go_form);
+    vh::set_case_text(fen + " | " + pre + " | " + go);
+    {
+        std::lock_guard<std::mutex> l(S.m);
+        S.armed = false;
+    }
+    rec.evaluations++;
+    rec.count("uci-budget-scenarios");
+    gui_send("position fen " + fen);
+    if (pre == "ucinewgame")
+    {
+        gui_send("ucinewgame");
+        gui_send("position fen " + fen);
+    }
+    else if (!pre.empty())
+    {
+        gui_send(subst(pre));
+        if (pre.find("infinite") != std::string::npos)
+        {
+            std::this_thread::sleep_for(std::chrono::milliseconds(30));
+            gui_send("stop");
+        }
+        if (!gui_until(seen, [](const std::string& l) { return l.rfind("bestmove", 0) == 0; }, 120000))
+        {
+            rec.count("inconclusive:budget-pre-search-unanswered");
+            return false;
+        }
+        // let the previous search thread leave Search::go() before the recorder is reset
+        for (int i = 0; i < 400 && S.after_bestmove.load() < S.before_bestmove.load(); ++i) std::this_thread::sleep_for(std::chrono::milliseconds(5));
+    }
+    Seen s0;
+    if (!sync_ready(s0)) return false;
+    g_bobs = 0;
+    g_bmax = -1;
+    g_bmin = -1;
+    gui_send(go);
+    bool answered = gui_until(seen, [](const std::string& l) { return l.rfind("bestmove", 0) == 0; }, 60000);
+    if (!answered)
+    {
+        // a search that does not end within a minute on a clock of at most a few hundred ms: stop it, the budget values decide
+        gui_send("stop");
+        gui_until(seen, [](const std::string& l) { return l.rfind("bestmove", 0) == 0; }, 60000);
+        rec.count("uci-budget:search-had-to-be-stopped");
+    }
+    for (int i = 0; i < 400 && S.after_bestmove.load() < S.before_bestmove.load(); ++i) std::this_thread::sleep_for(std::chrono::milliseconds(5));
+    long obs = g_bobs.load();
+    long long bmax = g_bmax.load(), bmin = g_bmin.load();
+    rec.count("uci-budget-observations", obs);
+    rec.count("uci-budget-go:" + form_name);
+    rec.count("uci-budget-pre:" + pre_name);
+    std::string ex = vh::J().str("fen", fen).str("before", pre.empty() ? "(nothing)" : subst(pre)).str("go", go).num("mover_clock_ms", T).num("budget_max", bmax).num("budget_min", bmin).num("observations", obs).done();
+    if (obs == 0) rec.count("uci-budget:no-observation");
+    else
+    {
+        if (bmax > 0) rec.count("uci-budget:positive");
+        if (bmin < 0) rec.violation("uci-live-budget-negative:" + form_name + ":after-" + pre_name, ex);
+        if (10 * bmax > 7LL * T) rec.violation("uci-live-budget-above-70%:" + form_name + ":after-" + pre_name, ex);
+    }
+    rec.nontrivial(vh::fnv("budget" + fen + pre + go));
+    if (rec.samples.size() < rec.max_samples) rec.sample(ex);
+    Seen tail;
+    return sync_ready(tail);
+}
+
 }  // namespace
 
 int main(int argc, char** argv)
@@ -577,6 +676,58 @@ int main(int argc, char** argv)
     add(verif::AFTER_BESTMOVE, -1, true);
     bool alive = true;
     bool only_nextgo = args.has("only-nextgo");
+    if (args.has("only-budget"))
+    {
+        struct Root
+        {
+            const char* fen;
+            bool white;
+            const char* sm;
+        };
+        static const Root BR[] = {{"rnbqkbnr/pppppppp/8/8/8/8/PPPPPPPP/RNBQKBNR w KQkq - 0 1", true, "e2e4 d2d4"},
+                                  {"r3k2r/p1ppqpb1/bn2pnp1/3PN3/1p2P3/2N2Q1p/PPPBBPPP/R3K2R w KQkq - 0 1", true, "e2a6 d5e6 e5f7"},
+                                  {"r1bqk2r/pp2bppp/2p5/3pP3/P2Q1P2/2N1B3/1PP3PP/R4RK1 b kq - 0 1", false, "e8g8 c6c5"},
+                                  {"r4rk1/1pp1qppp/p1np1n2/2b1p1B1/2B1P1b1/P1NP1N2/1PP1QPPP/R4RK1 w - - 0 10", true, "h2h3 c3d5"}};
+        static const char* PRE[][2] = {{"", "nothing"},
+                                       {"go movetime 400", "movetime-go"},
+                                       {"go depth 3", "depth-go"},
+                                       {"go nodes 4000", "nodes-go"},
+                                       {"go infinite", "stopped-infinite-go"},
+                                       {"go wtime 3000 btime 3000 movestogo 1", "larger-clock-go"},
+                                       {"go depth 2 searchmoves @SM", "searchmoves-go"},
+                                       {"ucinewgame", "ucinewgame"}};
+        static const char* FORM[][2] = {{"go wtime @W btime @B", "clocks"},
+                                        {"go btime @B wtime @W", "clocks-black-first"},
+                                        {"go wtime @W btime @B winc @I binc @I", "clocks+inc"},
+                                        {"go winc @I binc @I wtime @W btime @B", "inc-before-clocks"},
+                                        {"go wtime @W btime @B movestogo 1", "clocks+movestogo1"},
+                                        {"go movestogo 2 wtime @W btime @B", "movestogo-before-clocks"},
+                                        {"go searchmoves @SM wtime @W btime @B", "searchmoves-before-clocks"},
+                                        {"go wtime @W btime @B searchmoves @SM", "clocks-before-searchmoves"},
+                                        {"go searchmoves @SM btime @B wtime @W movestogo 3", "searchmoves-before-clocks-black-first"}};
+        static const int CLK[] = {40, 90, 150, 260};
+        int id = 0;
+        for (int r = 0; r < 4 && alive; ++r)
+            for (int f = 0; f < 9 && alive; ++f)
+                for (int pr = 0; pr < 8 && alive; ++pr)
+                {
+                    if (id++ % workers != worker) continue;
+                    int T = CLK[rng.below(4)];
+                    int other = rng.below(2) ? 20 * T : 1;  // the opponent's clock must not matter
+                    int inc = rng.below(2) ? 0 : int(rng.below(2000));
+                    alive = run_budget(BR[r].fen, BR[r].white, PRE[pr][0], PRE[pr][1], FORM[f][0], FORM[f][1], T, other, inc, BR[r].sm);
+                }
+        if (!alive) rec.count("engine-unusable-after-violation");
+        for (int p = 0; p < verif::POINT_NUM; ++p) rec.count(std::string("events:") + POINT_NAME[p], S.events[p].load());
+        rec.emit(REPORT);
+        fflush(REPORT);
+        if (alive)
+        {
+            gui_send("quit");
+            engine_thread.join();
+        }
+        _exit(0);
+    }
     if (!only_nextgo)
         for (const Scenario& sc : all)
         {
